@@ -63,6 +63,43 @@ func (t *blockTransport) Close() error {
 	return t.recTransport.Close()
 }
 
+// stallTransport: once armed, the first Write stalls (after half of its bytes) until the gate opens; counts how many
+// goroutines are inside Write at once
+type stallTransport struct {
+	*recTransport
+	smu      sync.Mutex
+	armed    bool
+	inFlight int
+	maxSeen  int
+	gate     chan struct{}
+	stalled  chan struct{}
+	once     sync.Once
+}
+
+func (t *stallTransport) arm() { t.smu.Lock(); t.armed = true; t.smu.Unlock() }
+func (t *stallTransport) maxInFlight() int {
+	t.smu.Lock()
+	defer t.smu.Unlock()
+	return t.maxSeen
+}
+
+func (t *stallTransport) Write(p []byte) (int, error) {
+	t.smu.Lock()
+	t.inFlight++
+	if t.inFlight > t.maxSeen {
+		t.maxSeen = t.inFlight
+	}
+	stall := t.armed
+	t.armed = false
+	t.smu.Unlock()
+	defer func() { t.smu.Lock(); t.inFlight--; t.smu.Unlock() }()
+	if stall {
+		t.once.Do(func() { close(t.stalled) })
+		<-t.gate
+	}
+	return t.recTransport.Write(p)
+}
+
 func waitCh(ch <-chan struct{}, d time.Duration) bool {
 	if ch == nil {
 		return false
@@ -87,6 +124,7 @@ func init() {
 			}
 			emit("wblock close")
 			emit("wblock retry")
+			emit("wstall pub")
 		},
 		exec: func(f []string) Result {
 			r := Result{Out: "", Tags: []string{"nontrivial", f[0] + "/" + f[1]}}
@@ -236,6 +274,57 @@ func init() {
 				if !waitCh(c.Done(), 3*time.Second) {
 					bad("C11", "done-not-closed", "Done() not closed after the handler was released and the transport closed")
 				}
+			case "wstall":
+				// a Write that stalls in the middle of a PUBLISH while the publisher's context expires; another caller
+				// (Ping) must not get into Transport.Write before the stalled write has returned (C10: the lock covers
+				// the whole packet, whatever happens to the caller's context)
+				base := newRecTransport()
+				st := &stallTransport{recTransport: base, gate: make(chan struct{}), stalled: make(chan struct{})}
+				c := &mqtt.BaseClient{Transport: st}
+				errCh := make(chan error, 1)
+				go func() { _, err := c.Connect(context.Background(), "cid"); errCh <- err }()
+				deadline := time.Now().Add(2 * time.Second)
+				for len(base.writeList()) == 0 && time.Now().Before(deadline) {
+					time.Sleep(100 * time.Microsecond)
+				}
+				base.feed(specConnAck(false, 0))
+				if err := <-errCh; err != nil {
+					bad("C10", "setup", "connect: %v", err)
+					return r
+				}
+				st.arm()
+				pctx, pc := context.WithTimeout(context.Background(), 40*time.Millisecond)
+				defer pc()
+				pubDone := make(chan error, 1)
+				go func() {
+					pubDone <- c.Publish(pctx, &mqtt.Message{Topic: "stalled", QoS: mqtt.QoS1, Payload: make([]byte, 3000)})
+				}()
+				if !waitCh(st.stalled, 3*time.Second) {
+					bad("C10", "setup", "the PUBLISH write did not start")
+					return r
+				}
+				time.Sleep(80 * time.Millisecond) // the publisher's context has expired; its Write is still in progress
+				pingDone := make(chan error, 1)
+				go func() {
+					qctx, qc := context.WithTimeout(context.Background(), 2*time.Second)
+					defer qc()
+					pingDone <- c.Ping(qctx)
+				}()
+				time.Sleep(30 * time.Millisecond)
+				if n := st.maxInFlight(); n > 1 {
+					bad("C10", "concurrent-transport-write", "%d goroutines were inside Transport.Write at the same time: a second packet was started while a stalled write of the first was still in progress", n)
+				}
+				close(st.gate)
+				<-pubDone
+				base.feed(specPacket(0xd0, nil))
+				select {
+				case <-pingDone:
+				case <-time.After(3 * time.Second):
+				}
+				if n := st.maxInFlight(); n > 1 {
+					bad("C10", "concurrent-transport-write", "%d goroutines were inside Transport.Write at the same time", n)
+				}
+				base.Close()
 			case "wblock":
 				if f[1] == "close" {
 					// an inbound QoS 1 message whose PUBACK write blocks (peer stopped reading); Close() from the application
